@@ -58,8 +58,10 @@ const SLOTS_PER_CASE: u64 = 2048;
 
 fn reserve_slots() -> u64 {
     let base = NEXT_BASE.fetch_add(SLOTS_PER_CASE, Ordering::Relaxed);
-    let _ = slot_cell(base);
-    let _ = slot_cell(base + SLOTS_PER_CASE - 1);
+    // the slot space (4096 chunks of 2^20 counters) is reused after 2^21 cases: clear this case's range, which lies
+    // inside one chunk because SLOTS_PER_CASE divides the chunk size
+    let first = slot_cell(base) as *const AtomicU8 as *mut u8;
+    unsafe { std::ptr::write_bytes(first, 0, SLOTS_PER_CASE as usize) };
     SLOT_NEXT.with(|c| c.set(base));
     SLOT_END.with(|c| c.set(base + SLOTS_PER_CASE));
     base
@@ -99,7 +101,21 @@ impl Drop for El {
 /// code under test shows up as a wrong count instead of freeing memory that is still in use.
 const GUARD: usize = 64;
 
-const STATIC_STRS: [&str; 5] = ["", "a", "name", "héllo wörld", "a-rather-long-static-string-that-is-over-thirty-two-bytes"];
+const LONG_STATIC: &str = "a-rather-long-static-string-that-is-over-thirty-two-bytes";
+const NSTATIC: usize = 8;
+/// the last three are views into one buffer: different strings that start at the same address
+fn static_str(i: usize) -> &'static str {
+    match i {
+        0 => "",
+        1 => "a",
+        2 => "name",
+        3 => "héllo wörld",
+        4 => LONG_STATIC,
+        5 => &LONG_STATIC[..0],
+        6 => &LONG_STATIC[..1],
+        _ => &LONG_STATIC[..8],
+    }
+}
 
 #[derive(Debug, Clone)]
 enum Op {
@@ -128,11 +144,11 @@ fn decode(src: &mut Source, threads: bool) -> Case {
     let n = 2 + src.below(29);
     let ops = (0..n)
         .map(|_| match src.below(16) {
-            0 => Op::StrBorrowed(src.below(STATIC_STRS.len())),
-            1 | 2 => Op::StrOwned { content: src.below(STATIC_STRS.len()), extra_cap: *src.pick(&[0usize, 0, 1, 7, 64]), via_std: src.chance(64) },
+            0 => Op::StrBorrowed(src.below(NSTATIC)),
+            1 | 2 => Op::StrOwned { content: src.below(NSTATIC), extra_cap: *src.pick(&[0usize, 0, 1, 7, 64]), via_std: src.chance(64) },
             3 => {
                 if src.chance(110) {
-                    Op::StrShared(100 + src.below(STATIC_STRS.len()))
+                    Op::StrShared(100 + src.below(NSTATIC))
                 } else {
                     Op::StrShared(src.below(3))
                 }
@@ -236,15 +252,15 @@ fn run_ops(case: &Case, world: &World) -> Result<Stats, Fail> {
                 lineage += 1;
                 // three ways to a borrowed string: from_borrowed, the const constructor the macros use, From<&'static str>
                 let cow: Cow<'static, str> = match (*i + pool.len()) % 3 {
-                    0 => Cow::from_borrowed(STATIC_STRS[*i]),
-                    1 => Cow::const_str(STATIC_STRS[*i]),
-                    _ => Cow::from(STATIC_STRS[*i]),
+                    0 => Cow::from_borrowed(static_str(*i)),
+                    1 => Cow::const_str(static_str(*i)),
+                    _ => Cow::from(static_str(*i)),
                 };
-                pool.push((Val::S { cow, model: STATIC_STRS[*i].to_string(), origin: Origin::Borrowed }, lineage));
+                pool.push((Val::S { cow, model: static_str(*i).to_string(), origin: Origin::Borrowed }, lineage));
             }
             Op::StrOwned { content, extra_cap, via_std } => {
-                let mut s = String::with_capacity(STATIC_STRS[*content].len() + extra_cap);
-                s.push_str(STATIC_STRS[*content]);
+                let mut s = String::with_capacity(static_str(*content).len() + extra_cap);
+                s.push_str(static_str(*content));
                 if *extra_cap == 0 {
                     s.shrink_to_fit();
                 }
@@ -257,7 +273,7 @@ fn run_ops(case: &Case, world: &World) -> Result<Stats, Fail> {
             Op::StrShared(i) if *i >= 100 => {
                 // a fresh Arc made here and given up at once: the Cow (and its clones) hold the last reference, so
                 // its release — size, count, thread — is the library's doing and shows in the allocation balance
-                let a: Arc<str> = Arc::from(STATIC_STRS[*i - 100]);
+                let a: Arc<str> = Arc::from(static_str(*i - 100));
                 let model = a.to_string();
                 lineage += 1;
                 let cow = Cow::from_shared(a.clone());
